@@ -3,21 +3,18 @@
 (*    incremental state machine (one action per physical line / end of input,*)
 (*    every action the code really performs is named) against the property   *)
 (*    sentences of C17 and against the fold TestRun used in trace validation.*)
-(* 2. (GenInit/GenNext) enumeration of ALL line sequences over the alphabet   *)
-(*    that the replay driver feeds to the real stir::KeyParser.               *)
-EXTENDS KeyParser, Json, IOUtils, SequencesExt
-CONSTANTS MaxFull,   \* all sequences of at most MaxFull lines over the full alphabet
-          MaxLen     \* plus sequences of up to MaxLen lines whose inner lines are core lines
-VARIABLES hist,      \* ids of the physical lines consumed so far
-          st,        \* machine state of KeyParser.tla
-          ph,        \* "first" (no meaningful line yet) | "loop" (parsing) | "done"
-          acc,       \* text of a continued line waiting for its continuation
-          res,       \* verdict once ph = "done"
-          last       \* what the last action did (for the action properties)
-vars == <<hist, st, ph, acc, res, last>>
+EXTENDS KeyParser
+CONSTANTS MaxFull    \* all sequences of at most MaxFull physical lines over the alphabet
+VARIABLES vHist,      \* ids of the physical lines consumed so far
+          vSt,        \* machine state of KeyParser.tla
+          vPh,        \* "first" (no meaningful line yet) | "loop" (parsing) | "done"
+          vPend,       \* id of a continued line waiting for its continuation (0: none)
+          vRes,       \* verdict once vPh = "done"
+          vLast       \* what the vLast action did (for the action properties)
+vars == <<vHist, vSt, vPh, vPend, vRes, vLast>>
 
 NoLast == [kind |-> "none"]
-\* what a line says, independently of the machine state (memoised over all texts that can occur)
+\* what a line says, independently of the machine state
 StaticInfo(t) ==
   LET p == ParseLine(t)
       k == Resolve(TestAlias, p.kw) IN
@@ -25,10 +22,15 @@ StaticInfo(t) ==
   ELSE LET e == TestKM[k] IN
        IF e.proc # "set" THEN [proc |-> e.proc]
        ELSE [proc |-> "set", var |-> e.var, vec |-> e.vec, idx |-> p.idx, val |-> ReadValue(e, p.rest)]
-InfoMemo == [t \in MemoTexts |-> StaticInfo(t)]
-\* what a meaningful line will do in state s
-Kind(s, t) ==
-  LET f == InfoMemo[t] IN
+Meaningful(t) == HasNonBlank(t) \/ t = ""
+\* memo (TLC re-evaluates operators at every use): for a pending continued line c (0: none) and the
+\* next physical line a, the logical line and what it says; PendTab[c]: the pending text on its own
+PendText(c) == IF c = 0 THEN "" ELSE Chop(StripCR(Alpha[c]))
+LineRec(t) == [text |-> t, cont |-> EndsBackslash(t), meaningful |-> Meaningful(t), info |-> StaticInfo(t)]
+LineTab == [c \in {0} \cup ContIds |-> [a \in AlphaIds |-> LineRec(PendText(c) \o StripCR(Alpha[a]))]]
+PendTab == [c \in {0} \cup ContIds |-> LineRec(PendText(c))]
+\* what a meaningful line (with static information f) will do in state s
+KindF(s, f) ==
   IF f.proc \in {"unknown", "nothing"} THEN "NoOp"
   ELSE IF f.proc = "start" THEN "StartKey" ELSE IF f.proc = "stop" THEN "StopKey"
   ELSE IF f.val.none THEN "IgnoreBadValue"
@@ -37,66 +39,65 @@ Kind(s, t) ==
   ELSE IF f.idx.n = 0 THEN "AssignScalar" ELSE "AssignIndexed"
 \* the effect of a meaningful line, written directly from what the line says (the fold TestRun of
 \* KeyParser.tla computes it through Process/SetVar; FoldAgrees compares the two formulations)
-Effect(s, t) ==
-  LET f == InfoMemo[t]
-      kind == Kind(s, t) IN
+EffectF(s, f) ==
+  LET kind == KindF(s, f) IN
   CASE kind = "StartKey" -> [s EXCEPT !.status = "parsing"]
     [] kind = "StopKey" -> [s EXCEPT !.status = "end"]
     [] kind = "AssignScalar" -> [s EXCEPT !.vars[f.var] = f.val.v]
     [] kind = "AssignIndexed" -> [s EXCEPT !.vars[f.var][f.idx.n] = f.val.v]
     [] kind = "IndexError" -> [s EXCEPT !.err = "IndexError"]
     [] OTHER -> s
-LastOf(s, t, kind) ==
-  LET f == InfoMemo[t] IN
+LastOfF(s, f, kind) ==
   IF kind \in {"AssignScalar", "AssignIndexed"}
   THEN [kind |-> kind, var |-> f.var, idx |-> f.idx.n, val |-> f.val.v, before |-> s.vars]
   ELSE [kind |-> kind]
 
-Init == hist = <<>> /\ st = TestInit /\ ph = "first" /\ acc = "" /\ res = "" /\ last = NoLast
+Init == vHist = <<>> /\ vSt = TestInit /\ vPh = "first" /\ vPend = 0 /\ vRes = "" /\ vLast = NoLast
 
-LineOf(a) == acc \o StripCR(Alpha[a])
-Meaningful(t) == HasNonBlank(t) \/ t = ""
-Feedable(a) == ph \in {"first", "loop"} /\ Len(hist) < MaxFull /\ a \in AlphaIds
-Consume(a) == hist' = Append(hist, a)
+LR(a) == LineTab[vPend][a]
+Feedable(a) == vPh \in {"first", "loop"} /\ Len(vHist) < MaxFull /\ a \in AlphaIds
+Consume(a) == vHist' = Append(vHist, a)
 
 \* read_line: "When the line ends with continuation_char, the next line will just be appended"
-ContinueLine(a) == /\ Feedable(a) /\ EndsBackslash(LineOf(a))
-                   /\ Consume(a) /\ acc' = Chop(LineOf(a)) /\ UNCHANGED <<st, ph, res>> /\ last' = [kind |-> "ContinueLine"]
+\* (the model check does not chain continuations: only a fresh line can be continued)
+ContinueLine(a) == /\ Feedable(a) /\ LR(a).cont /\ vPend = 0
+                   /\ Consume(a) /\ vPend' = a /\ UNCHANGED <<vSt, vPh, vRes>> /\ vLast' = [kind |-> "ContinueLine"]
 \* read_and_parse_line: a line of blanks only is skipped (also before the start key)
-SkipBlankLine(a) == /\ Feedable(a) /\ ~EndsBackslash(LineOf(a)) /\ ~Meaningful(LineOf(a))
-                    /\ Consume(a) /\ acc' = "" /\ UNCHANGED <<st, ph, res>> /\ last' = [kind |-> "SkipBlankLine"]
-Line(a, phase, kind) == /\ Feedable(a) /\ ph = phase /\ ~EndsBackslash(LineOf(a)) /\ Meaningful(LineOf(a))
-                        /\ Kind(st, LineOf(a)) = kind
-                        /\ Consume(a) /\ acc' = "" /\ last' = LastOf(st, LineOf(a), kind)
+SkipBlankLine(a) == /\ Feedable(a) /\ ~LR(a).cont /\ ~LR(a).meaningful
+                    /\ Consume(a) /\ vPend' = 0 /\ UNCHANGED <<vSt, vPh, vRes>> /\ vLast' = [kind |-> "SkipBlankLine"]
+Line(a, phase, kind) == /\ Feedable(a) /\ vPh = phase /\ ~LR(a).cont /\ LR(a).meaningful
+                        /\ KindF(vSt, LR(a).info) = kind
+                        /\ Consume(a) /\ vPend' = 0 /\ vLast' = LastOfF(vSt, LR(a).info, kind)
 \* the first meaningful line
-StartKey(a) == Line(a, "first", "StartKey") /\ st' = Effect(st, LineOf(a)) /\ ph' = "loop" /\ res' = res
+StartKey(a) == Line(a, "first", "StartKey") /\ vSt' = EffectF(vSt, LR(a).info) /\ vPh' = "loop" /\ vRes' = vRes
 \* FirstLineBeforeStart: the first line is processed (variables are assigned, errors raised) although
 \* parsing has not started; then "required first keyword not found": rejected
-FirstLineBeforeStart(a) == /\ ph = "first" /\ Feedable(a) /\ ~EndsBackslash(LineOf(a)) /\ Meaningful(LineOf(a))
-                           /\ Kind(st, LineOf(a)) # "StartKey"
-                           /\ Consume(a) /\ acc' = "" /\ last' = LastOf(st, LineOf(a), Kind(st, LineOf(a)))
-                           /\ st' = Effect(st, LineOf(a)) /\ ph' = "done"
-                           /\ res' = IF st'.err # NoErr THEN "error" ELSE "rejected"
+FirstLineBeforeStart(a) == /\ vPh = "first" /\ Feedable(a) /\ ~LR(a).cont /\ LR(a).meaningful
+                           /\ KindF(vSt, LR(a).info) # "StartKey"
+                           /\ Consume(a) /\ vPend' = 0 /\ vLast' = LastOfF(vSt, LR(a).info, KindF(vSt, LR(a).info))
+                           /\ vSt' = EffectF(vSt, LR(a).info) /\ vPh' = "done"
+                           /\ vRes' = IF vSt'.err # NoErr THEN "error" ELSE "rejected"
 \* lines while parsing
-StartKeyAgain(a) == Line(a, "loop", "StartKey") /\ UNCHANGED <<st, ph, res>>
-StopKey(a) == Line(a, "loop", "StopKey") /\ st' = Effect(st, LineOf(a)) /\ ph' = "done" /\ res' = "accepted"
-NoOpLine(a) == Line(a, "loop", "NoOp") /\ UNCHANGED <<st, ph, res>>          \* unknown key, comment, empty line, ignored key
-IgnoreBadValue(a) == Line(a, "loop", "IgnoreBadValue") /\ UNCHANGED <<st, ph, res>>   \* no ':=', no value, value of the wrong type
-AssignScalar(a) == Line(a, "loop", "AssignScalar") /\ st' = Effect(st, LineOf(a)) /\ UNCHANGED <<ph, res>>
-AssignIndexed(a) == Line(a, "loop", "AssignIndexed") /\ st' = Effect(st, LineOf(a)) /\ UNCHANGED <<ph, res>>
-IndexError(a) == Line(a, "loop", "IndexError") /\ st' = Effect(st, LineOf(a)) /\ ph' = "done" /\ res' = "error"
+StartKeyAgain(a) == Line(a, "loop", "StartKey") /\ UNCHANGED <<vSt, vPh, vRes>>
+StopKey(a) == Line(a, "loop", "StopKey") /\ vSt' = EffectF(vSt, LR(a).info) /\ vPh' = "done" /\ vRes' = "accepted"
+NoOpLine(a) == Line(a, "loop", "NoOp") /\ UNCHANGED <<vSt, vPh, vRes>>          \* unknown key, comment, empty line, ignored key
+IgnoreBadValue(a) == Line(a, "loop", "IgnoreBadValue") /\ UNCHANGED <<vSt, vPh, vRes>>   \* no ':=', no value, value of the wrong type
+AssignScalar(a) == Line(a, "loop", "AssignScalar") /\ vSt' = EffectF(vSt, LR(a).info) /\ UNCHANGED <<vPh, vRes>>
+AssignIndexed(a) == Line(a, "loop", "AssignIndexed") /\ vSt' = EffectF(vSt, LR(a).info) /\ UNCHANGED <<vPh, vRes>>
+IndexError(a) == Line(a, "loop", "IndexError") /\ vSt' = EffectF(vSt, LR(a).info) /\ vPh' = "done" /\ vRes' = "error"
 \* end of input.  A pending continued line is processed as it stands (ContinuationAtEof).
-PendingKind == IF acc # "" /\ Meaningful(acc) THEN Kind(st, acc) ELSE "none"
-EofBeforeStart == /\ ph = "first" /\ PendingKind # "StartKey"
-                  /\ st' = IF PendingKind = "none" THEN st ELSE Effect(st, acc)
-                  /\ ph' = "done" /\ res' = IF st'.err # NoErr THEN "error" ELSE "rejected"
-                  /\ acc' = "" /\ last' = [kind |-> "EofBeforeStart"] /\ UNCHANGED hist
+Pend == PendTab[vPend]
+PendingKind == IF vPend # 0 /\ Pend.meaningful /\ Pend.text # "" THEN KindF(vSt, Pend.info) ELSE "none"
+EofBeforeStart == /\ vPh = "first" /\ PendingKind # "StartKey"
+                  /\ vSt' = IF PendingKind = "none" THEN vSt ELSE EffectF(vSt, Pend.info)
+                  /\ vPh' = "done" /\ vRes' = IF vSt'.err # NoErr THEN "error" ELSE "rejected"
+                  /\ vPend' = 0 /\ vLast' = [kind |-> "EofBeforeStart"] /\ UNCHANGED vHist
 \* EofAccept: "early EOF" is only a warning, the stop key is not required
-EofAccept == /\ ph = "loop" \/ (ph = "first" /\ PendingKind = "StartKey")
-             /\ st' = IF PendingKind = "none" THEN [st EXCEPT !.status = "end"]
-                      ELSE LET s2 == Effect(st, acc) IN IF s2.err # NoErr THEN s2 ELSE [s2 EXCEPT !.status = "end"]
-             /\ ph' = "done" /\ res' = IF st'.err # NoErr THEN "error" ELSE "accepted"
-             /\ acc' = "" /\ last' = [kind |-> "EofAccept"] /\ UNCHANGED hist
+EofAccept == /\ vPh = "loop" \/ (vPh = "first" /\ PendingKind = "StartKey")
+             /\ vSt' = IF PendingKind = "none" THEN [vSt EXCEPT !.status = "end"]
+                      ELSE LET s2 == EffectF(vSt, Pend.info) IN IF s2.err # NoErr THEN s2 ELSE [s2 EXCEPT !.status = "end"]
+             /\ vPh' = "done" /\ vRes' = IF vSt'.err # NoErr THEN "error" ELSE "accepted"
+             /\ vPend' = 0 /\ vLast' = [kind |-> "EofAccept"] /\ UNCHANGED vHist
 
 Next == \/ \E a \in AlphaIds : \/ ContinueLine(a) \/ SkipBlankLine(a) \/ StartKey(a) \/ FirstLineBeforeStart(a) \/ StartKeyAgain(a)
                                \/ StopKey(a) \/ NoOpLine(a) \/ IgnoreBadValue(a) \/ AssignScalar(a) \/ AssignIndexed(a) \/ IndexError(a)
@@ -106,52 +107,33 @@ Spec == Init /\ [][Next]_vars
 (* ------------------------------ invariants -------------------------------- *)
 \* "Arbitrary, malformed or truncated parameter files ... either parse into an internally consistent
 \* object or are rejected": the incremental machine and the fold used for trace validation agree on
-\* verdict and variables for every input, whether or not the last line ends with a newline
-FoldAgrees == ph = "done" => \A nl \in BOOLEAN : LET x == TestRun(TextsOf(hist), nl) IN x.verdict = res /\ x.st.vars = st.vars
+\* verdict and variables for every input, whether or not the vLast line ends with a newline
+FoldAgrees == vPh = "done" => \A nl \in BOOLEAN : LET x == TestRun(TextsOf(vHist), nl) IN x.verdict = vRes /\ x.st.vars = vSt.vars
 \* "vectorised keys are stored at the index given" (and nothing else changes)
-StoredAtIndex == last.kind = "AssignIndexed" =>
-                   /\ st.vars[last.var][last.idx] = last.val
-                   /\ Len(st.vars[last.var]) = Len(last.before[last.var])
-                   /\ \A j \in 1..Len(st.vars[last.var]) : j # last.idx => st.vars[last.var][j] = last.before[last.var][j]
-                   /\ \A v \in DOMAIN st.vars : v # last.var => st.vars[v] = last.before[v]
-ScalarStored == last.kind = "AssignScalar" => /\ st.vars[last.var] = last.val
-                                              /\ \A v \in DOMAIN st.vars : v # last.var => st.vars[v] = last.before[v]
+StoredAtIndex == vLast.kind = "AssignIndexed" =>
+                   /\ vSt.vars[vLast.var][vLast.idx] = vLast.val
+                   /\ Len(vSt.vars[vLast.var]) = Len(vLast.before[vLast.var])
+                   /\ \A j \in 1..Len(vSt.vars[vLast.var]) : j # vLast.idx => vSt.vars[vLast.var][j] = vLast.before[vLast.var][j]
+                   /\ \A v \in DOMAIN vSt.vars : v # vLast.var => vSt.vars[v] = vLast.before[v]
+ScalarStored == vLast.kind = "AssignScalar" => /\ vSt.vars[vLast.var] = vLast.val
+                                              /\ \A v \in DOMAIN vSt.vars : v # vLast.var => vSt.vars[v] = vLast.before[v]
 \* "aliases resolve to their target"
-AliasResolves == ph # "done" => /\ Process(st, "old int := 9") = Process(st, "scalar int := 9")
-                                /\ Process(st, "old vec[2] := 6") = Process(st, "vec key[2] := 6")
-                                /\ Process(st, "OLD_vec [2] := 6") = Process(st, "vec key[2] := 6")
+AliasResolves == vPh # "done" => /\ Process(vSt, "old int := 9") = Process(vSt, "scalar int := 9")
+                                /\ Process(vSt, "old vec[2] := 6") = Process(vSt, "vec key[2] := 6")
+                                /\ Process(vSt, "OLD_vec [2] := 6") = Process(vSt, "vec key[2] := 6")
 \* "Keyword matching ignores case and white space as documented"
-SpellingIgnored == ph # "done" => /\ Process(st, "SCALAR_int:=6") = Process(st, "scalar int := 6")
-                                  /\ Process(st, "  !Vec__KEY [3]:=13") = Process(st, "vec key[3] := 13")
-                                  /\ Process(st, "!END__test  := ") = Process(st, "End Test :=")
-                                  /\ Process(st, "enum key := BETA_gamma") = Process(st, "enum key := beta gamma")
+SpellingIgnored == vPh # "done" => /\ Process(vSt, "SCALAR_int:=6") = Process(vSt, "scalar int := 6")
+                                  /\ Process(vSt, "  !Vec__KEY [3]:=13") = Process(vSt, "vec key[3] := 13")
+                                  /\ Process(vSt, "!END__test  := ") = Process(vSt, "End Test :=")
+                                  /\ Process(vSt, "enum key := BETA_gamma") = Process(vSt, "enum key := beta gamma")
 \* parsing never starts without the start key, and an error or the stop key ends it
-StartRequired == ph = "loop" => \E k \in 1..Len(hist) : InfoMemo[StripCR(Alpha[hist[k]])].proc = "start"
-ErrorIsFinal == st.err # NoErr => ph = "done" /\ res = "error"
-Bounded == \A v \in {"vec", "vlist"} : Len(st.vars[v]) = Len(TestVars[v])     \* a parser never resizes a vectorised variable
+StartRequired == vPh = "loop" => \E k \in 1..Len(vHist) : LineTab[0][vHist[k]].info.proc = "start"
+ErrorIsFinal == vSt.err # NoErr => vPh = "done" /\ vRes = "error"
+Bounded == \A v \in {"vec", "vlist"} : Len(vSt.vars[v]) = Len(TestVars[v])     \* a parser never resizes a vectorised variable
 ASSUME /\ Standardise("  start_TEST") = "start test" /\ Standardise("!END__test  ") = "end test"
        /\ Standardise("a \t_!b") = "a b" /\ Standardise(" _!\t") = ""
        /\ \A a \in AlphaIds : Standardise(Standardise(GetKeyword(Alpha[a]))) = Standardise(GetKeyword(Alpha[a]))
        /\ GetKeyword("a:b := 1") = "a:b " /\ GetKeyword("k[1] := 2") = "k" /\ GetIndex("k[ 12 ] := 2").n = 12
        /\ GetIndex("k[4294967297] := 2").big /\ GetIndex("k := v[3]") = NoIndex
 
-(* ------------------ enumeration for the replay (part a) ------------------- *)
-More(p) == TestRun(TextsOf(p), TRUE).more
-Ext(P, A) == UNION { {Append(p, a) : a \in A} : p \in {q \in P : More(q)} }
-\* after the parser has stopped one more line is appended: it must not be read any more
-DeadProbe == 29
-Dead(P) == {Append(p, DeadProbe) : p \in {q \in P : ~More(q)}}
-RECURSIVE FullLevel(_)
-FullLevel(n) == IF n = 0 THEN {<<>>} ELSE LET P == FullLevel(n - 1) IN Ext(P, AlphaIds) \cup Dead(P)
-RECURSIVE CoreLevel(_)
-CoreLevel(n) == IF n = 0 THEN {<<>>} ELSE Ext(CoreLevel(n - 1), CoreIds)
-FullSeqs == UNION {FullLevel(n) : n \in 0..MaxFull}
-DeepSeqs == UNION {Ext(CoreLevel(n - 1), AlphaIds) : n \in (MaxFull + 1)..MaxLen}
-Rec(p, nl) == [e |-> "Run", ids |-> p, nl |-> nl, text |-> TextsOf(p)]
-Runs == {Rec(p, nl) : p \in FullSeqs, nl \in BOOLEAN} \cup {Rec(p, TRUE) : p \in DeepSeqs}
-GenFile == IF "GEN" \in DOMAIN IOEnv THEN IOEnv.GEN ELSE "gen.ndjson"
-GenInit == /\ hist = <<>> /\ st = TestInit /\ ph = "gen" /\ acc = "" /\ res = "" /\ last = NoLast
-           /\ PrintT(<<"RUNS", Cardinality(FullSeqs), Cardinality(DeepSeqs)>>)
-           /\ ndJsonSerialize(GenFile, SetToSeq(Runs))
-GenNext == FALSE /\ UNCHANGED vars
 =============================================================================
